@@ -413,6 +413,50 @@ def strip_new_casts(ref_fn, cur_fn) -> int:
     return count[0]
 
 
+def inline_pure_locals(ref_fn, cur_fn) -> int:
+    """"Introduce a local for a repeated sub-expression", undone: a local the reference function does not have, bound exactly once (at the top level of
+    the function body) to an expression without calls whose free names are never re-bound in the function, is replaced by that expression where it is
+    read, and the binding is dropped.  Attribute reads are taken to be effect-free."""
+    import copy
+
+    ref_locals, _ = _core._scope_info(ref_fn)
+    stores: dict = {}
+    for n in ast.walk(cur_fn):
+        if isinstance(n, ast.Name) and isinstance(n.ctx, (ast.Store, ast.Del)):
+            stores.setdefault(n.id, []).append(n)
+    params = {a.arg for f in ast.walk(cur_fn) if isinstance(f, FuncNode + (ast.Lambda,)) for a in f.args.args + f.args.kwonlyargs + f.args.posonlyargs}
+    total = 0
+    for st in list(cur_fn.body):
+        if not (isinstance(st, ast.Assign) and len(st.targets) == 1 and isinstance(st.targets[0], ast.Name)):
+            continue
+        v = st.targets[0].id
+        if v in ref_locals or v in params or len(stores.get(v, [])) != 1:
+            continue
+        val = st.value
+        if any(isinstance(n, (ast.Call, ast.Await, ast.Yield, ast.YieldFrom, ast.NamedExpr, ast.Lambda, ast.ListComp, ast.SetComp, ast.DictComp, ast.GeneratorExp, ast.Starred)) for n in ast.walk(val)):
+            continue
+        if isinstance(val, (ast.Constant, ast.Name)):
+            continue
+        free = {n.id for n in ast.walk(val) if isinstance(n, ast.Name)}
+        if any(f in stores or f in params and False for f in free if f != v):
+            continue
+        loads = [n for n in ast.walk(cur_fn) if isinstance(n, ast.Name) and n.id == v and isinstance(n.ctx, ast.Load)]
+        if len(loads) < 2:
+            continue
+
+        class Sub(ast.NodeTransformer):
+            def visit_Name(self, n):
+                if n.id == v and isinstance(n.ctx, ast.Load):
+                    return ast.copy_location(copy.deepcopy(val), n)
+                return n
+
+        cur_fn.body.remove(st)
+        cur_fn.body = [Sub().visit(x) for x in cur_fn.body]
+        ast.fix_missing_locations(cur_fn)
+        total += 1
+    return total
+
+
 def _falls_off_same(fn, blk, st) -> bool:
     """True when dropping a trailing `continue` (or bare `return`) of st's body is behaviour-preserving once st (with the rest of the block as its
     else-arm) is the last statement of `blk`: blk must be the body of a loop (for `continue`) or of the function (for `return`)."""
@@ -581,6 +625,7 @@ def normalise_module(rel: str, tree: ast.AST) -> int:
         for _round in range(3):
             k = 0
             k += strip_new_casts(rf, cur)
+            k += inline_pure_locals(rf, cur)
             k += inline_adjacent_temps(rf, cur)
             k += reintroduce_temps(rf, cur)
             k += renest_else(rf, cur)
